@@ -4,7 +4,7 @@
 From Coq Require Import List NArith ZArith Bool.
 From Qryn Require Import model.Ingest model.PushHandler model.IngestSpec model.IngestSched proofs.IngestBase proofs.IngestAck
   proofs.IngestSpecProofs proofs.IngestHandler proofs.IngestDrain proofs.IngestLive proofs.IngestLiveAll proofs.IngestRows
-  proofs.IngestWait proofs.IngestStop model.IngestFair proofs.IngestFairProofs.
+  proofs.IngestWait proofs.IngestStop model.IngestFair proofs.IngestFairProofs model.IngestRegions proofs.IngestRegionsProofs model.PushConfirm proofs.IngestConfirm.
 Import ListNotations.
 
 (* For every configuration (workers of any kind / round-robin group / maxQueueSize, retry count), every
@@ -235,3 +235,67 @@ Theorem unanswered_until_a_do_returns : forall tr g g' es h k,
   blocked g' h k /\ ~ In h (answered es).
 Proof. exact grun_blocked. Qed.
 Print Assumptions unanswered_until_a_do_returns.
+
+(* Mutex atomicity.  The model treats each mutex hold of genericInsertService.go as one atomic step.  The Lock/Unlock
+   regions of the methods of InsertServiceV2 are regenerated from the source on every run (translate/gen_c01_regions:
+   fields written with a classification of the value, fields read, calls, what is returned; and every access to a
+   receiver field outside any region) and must equal regions_model / outside_model.  Over these: every step kind of
+   sstep that may change a field other goroutines touch (columns, size, results, insertCtx/insertCancel, running) is
+   exactly one region whose writes are the step's; the steps without a region (dial, call and return of Do, ping)
+   change only client and the portion in flight, which belong to the Run goroutine alone; every region is exactly one
+   step kind (or Init); outside the regions no shared field is written and it is read only at three listed places; and
+   swapBuffers returns (columns, results, size) as they were and re-initialises all three with fresh / empty values, so
+   no alias of the portion stays in the service (what the seeded changes C01-a, C01-b and C02-b broke). *)
+Theorem model_steps_are_the_critical_sections : regions_ok regions_model outside_model = true.
+Proof. exact IngestRegionsProofs.model_steps_are_the_critical_sections. Qed.
+Print Assumptions model_steps_are_the_critical_sections.
+
+(* ... and the frame side of it, for every state: a step changes only the model fields listed for its kind. *)
+Theorem a_step_changes_only_the_fields_of_its_region : forall s a s' vs m,
+  sstep s a = Some (s', vs) -> mem_mfield m (step_writes (kind_of a)) = false -> same_on m s s'.
+Proof. exact sstep_frame. Qed.
+Print Assumptions a_step_changes_only_the_fields_of_its_region.
+
+(* unmarshal.ConfirmSeries (the announcement cache of the time_series rows, /repo 00ba95e) inside the model:
+   model/PushConfirm.v wraps the system with the cache and the confirmation loop of doParse, which runs after the in-order
+   Get() loop found no error and before doParse returns nil (the status is written after that).  The wrapped system
+   refines the plain one -- its runs, with the confirmation steps erased, are runs of model/PushHandler.v with the same
+   events --, so every theorem above holds of it. *)
+Theorem confirming_system_refines : forall tr c c' es, crun c tr = Some (c', es) ->
+  grun (base c) (base_trace tr) = Some (base c', base_events es).
+Proof. exact crun_refines. Qed.
+Print Assumptions confirming_system_refines.
+
+(* A series row is announced as stored only after it was stored: for every configuration and interleaving of well-formed
+   requests, whenever the confirmation loop of push h runs, its keys are those of the series requests of the push and
+   EVERY sub-request of every chunk of the push is covered by blocks whose Do had returned without error (m: the state
+   of the acknowledgement monitor of ack_sound on the events so far). *)
+Theorem series_confirmed_only_after_all_inserts : forall cfg n tr c ces,
+  forallb act_wf (base_trace tr) = true -> crun (cinit cfg n) tr = Some (c, ces) ->
+  forall ces1 h keys ces2, ces = ces1 ++ EConfirm h keys :: ces2 ->
+  exists reqs m, series_keys reqs = Some keys /\
+    run_mon (amon_step true) (amon_init (length cfg)) (base_events ces1) = Some m /\
+    forallb (fun kr => covered true (a_acked m) (fst kr) (snd kr)) reqs = true.
+Proof. exact confirm_only_after_all_inserts. Qed.
+Print Assumptions series_confirmed_only_after_all_inserts.
+
+(* The cache holds exactly what the confirmation loops entered. *)
+Theorem cache_holds_only_confirmed_series : forall tr c c' es, crun c tr = Some (c', es) ->
+  fpcache c' = (fpcache c ++ concat (map snd (confirm_events es)))%list.
+Proof. exact cache_grows_only_by_confirmations. Qed.
+Print Assumptions cache_holds_only_confirmed_series.
+
+(* Skipped on failure: the loop runs only when the parser finished without error, nothing was answered and every
+   sub-push of the push has its result and that result is success; once per push. *)
+Theorem confirmation_needs_every_sub_push_to_succeed : forall c h c' es, cstep c (CConfirm h) = Some (c', es) ->
+  exists hd, nth_error (hs (base c)) h = Some hd /\ h_items hd = [] /\ h_answer hd = None /\
+    (forall sp, In sp (h_subs hd) -> sp_result sp = Some true) /\ mem_nat h (confirmed c) = false /\
+    mem_nat h (confirmed c') = true.
+Proof. exact IngestConfirm.confirmation_needs_every_sub_push_to_succeed. Qed.
+Print Assumptions confirmation_needs_every_sub_push_to_succeed.
+
+(* ... and it comes before the status: a success answer is only given by a push that has run it. *)
+Theorem success_answer_needs_confirmation : forall c h c' es reqs,
+  cstep c (CBase (GAnswer h)) = Some (c', es) -> In (CE (EAnswer h reqs true)) es -> mem_nat h (confirmed c) = true.
+Proof. exact IngestConfirm.success_answer_needs_confirmation. Qed.
+Print Assumptions success_answer_needs_confirmation.
